@@ -42,6 +42,7 @@ inductive Repl
   | cbo (k : Nat)        -- `Origin(&o).Apply(func(a) { return o(a) + k })` : callback calls the origin placeholder
   | tab (v : Nat)        -- `Return(v).When(1).Return(v+1).When(2).Return(v+2)` : argument-dependent result table
   | tin (v : Nat)        -- `Return(v).In(1, 2).Return(v+5)` : a ContainsMatcher condition
+  | tov (v : Nat)        -- `Return(v).When(1).Return(v+1).When(Any()).Return(v+2)` : overlapping conditions, first registered wins
   deriving DecidableEq, Repr, Inhabited
 
 /-- content of the 13 entry bytes of a location (targets) or of a placeholder body -/
@@ -174,6 +175,7 @@ def callAt (L : Layout) (s : St) (f a : Nat) : Option Nat :=
     | .jump (.cb k) => some (a + k)
     | .jump (.tab v) => some (if a = 1 then v + 1 else if a = 2 then v + 2 else v)
     | .jump (.tin v) => some (if a = 1 ∨ a = 2 then v + 5 else v)
+    | .jump (.tov v) => some (if a = 1 then v + 1 else v + 2)
     | .jump (.cbo k) =>
       if allX s (L.pages (L.plh f)) then
         match s.text (L.plh f) with
